@@ -437,11 +437,11 @@ static size_t safec_ftoa(out_fct_type out, const char *funcname, char *buffer,
             // reverse of inf
             return safec_out_rev(out, buffer, idx, maxlen,
                                  (flags & FLAGS_PLUS)
-                                     ? (flags & FLAGS_UPPERCASE) ? "FNI+"
-                                                                 : "fni+"
-                                 : (flags & FLAGS_UPPERCASE) ? "FNI"
-                                                             : "fni",
-                                 (flags & FLAGS_PLUS) ? 4 : 3, width,
+                                     ? ((flags & FLAGS_UPPERCASE) ? "FNI+" : "fni+")
+                                 : (flags & FLAGS_SPACE)
+                                     ? ((flags & FLAGS_UPPERCASE) ? "FNI " : "fni ")
+                                 : ((flags & FLAGS_UPPERCASE) ? "FNI" : "fni"),
+                                 (flags & (FLAGS_PLUS | FLAGS_SPACE)) ? 4 : 3, width,
                                  flags & ~FLAGS_ZEROPAD);
     }
     // test for very large values
@@ -687,11 +687,11 @@ static size_t safec_ftoa_long(out_fct_type out, const char *funcname,
         else
             return safec_out_rev(out, buffer, idx, maxlen,
                                  (flags & FLAGS_PLUS)
-                                     ? (flags & FLAGS_UPPERCASE) ? "FNI+"
-                                                                 : "fni+"
-                                 : (flags & FLAGS_UPPERCASE) ? "FNI"
-                                                             : "fni",
-                                 (flags & FLAGS_PLUS) ? 4 : 3, width,
+                                     ? ((flags & FLAGS_UPPERCASE) ? "FNI+" : "fni+")
+                                 : (flags & FLAGS_SPACE)
+                                     ? ((flags & FLAGS_UPPERCASE) ? "FNI " : "fni ")
+                                 : ((flags & FLAGS_UPPERCASE) ? "FNI" : "fni"),
+                                 (flags & (FLAGS_PLUS | FLAGS_SPACE)) ? 4 : 3, width,
                                  flags & ~FLAGS_ZEROPAD);
     }
     {
@@ -752,11 +752,11 @@ static inline size_t safec_atoa(out_fct_type out, const char *funcname,
         else
             return safec_out_rev(out, buffer, idx, maxlen,
                                  (flags & FLAGS_PLUS)
-                                     ? (flags & FLAGS_UPPERCASE) ? "FNI+"
-                                                                 : "fni+"
-                                 : (flags & FLAGS_UPPERCASE) ? "FNI"
-                                                             : "fni",
-                                 (flags & FLAGS_PLUS) ? 4 : 3, width,
+                                     ? ((flags & FLAGS_UPPERCASE) ? "FNI+" : "fni+")
+                                 : (flags & FLAGS_SPACE)
+                                     ? ((flags & FLAGS_UPPERCASE) ? "FNI " : "fni ")
+                                 : ((flags & FLAGS_UPPERCASE) ? "FNI" : "fni"),
+                                 (flags & (FLAGS_PLUS | FLAGS_SPACE)) ? 4 : 3, width,
                                  flags & ~FLAGS_ZEROPAD);
     }
     {
